@@ -4,19 +4,22 @@ F = [P + f for f in ("packetization_kernel", "count_frames_in_next_tu", "encode_
                      "push_undisplayed_frame", "pop_undisplayed_frame", "sort_undisplayed_frame", "copy_data_from_bitstream", "get_reorder_queue_pos")]
 META = {
     "engine": "E2 kernel-under-stubs",
-    "level_text": "The real packetization_kernel executed symbolically over a window of K pictures: arbitrary arrival order, arbitrary hidden/shown/show-existing shape (<=1 outstanding hidden frame), arbitrary frame types, arbitrary stale reorder-queue contents, queue head at 0 / 2046 / 2047 (wrap inside the window), EOS on/off; every packet posted to the application is checked: temporal delimiter first, whole OBUs only, size == sum of parts, exactly one displayed frame, frames in decode order, sequence header before every key frame, pts/dts/private pointer of the k-th displayed picture, show-existing and EOS flags, picture type KEY iff key frame.",
+    "level_text": "The real packetization_kernel executed symbolically over a window of K pictures: arbitrary arrival order, arbitrary hidden/shown/show-existing shape (<=1 outstanding hidden frame), arbitrary frame types, arbitrary stale reorder-queue contents, queue window starting at decode order 0 / 2046 / 2047 / 4095 (2047->0 wrap inside the window), EOS on/off; every packet posted to the application is checked: temporal delimiter first, whole OBUs only, size == sum of parts, exactly one displayed frame, frames in decode order, sequence header before every key frame, pts/dts/private pointer of the k-th displayed picture, show-existing and EOS flags, picture type KEY iff key frame.",
     "level_note": "Header writers (encode_sps_av1, write_frame_header_av1, write_metadata_av1) are replaced by marker writers: validity of real OBU headers is decided separately on the real writers (queries hdr_*). Tile payload bytes are opaque. K<=3 (quick) / 4 (thorough).",
     "technique": "CBMC bounded symbolic execution of the real kernel loop with stubbed queues (shutdown path bounds the loop)",
     "assumptions": ["GOP well-formedness: each temporal unit = hidden* shown; show-existing refers to the outstanding hidden frame; key frames are shown", "frame_type == KEY_FRAME iff idr_flag (EbPictureDecisionProcess.c)"],
     "outside": ["real OBU payload validity (C25/C01)", "more than one outstanding hidden frame", "metadata OBUs"],
     "stubs": ["svt_get_full_object (K results then shutdown)", "svt_get_empty_object/svt_post_full_object/svt_release_object", "encode_sps_av1/write_frame_header_av1/write_metadata_av1 (markers)", "encode_td_av1 (0x12 0x00)", "bitstream_reset/_get_bytes_count/_copy", "qsort (insertion sort)", "svt_av1_get_time (arbitrary)", "rate_control_mode == 0 (update_rc_rate_tables not reached)"],
     "explanation": ""}
+import math
 def queries(tier):
-    qs = [Query(name="tu_K2", harness="C02/pkt.c", defines=["K=2"], unwind=12, funcs=F, timeout=900,
-                bound="window of 2 pictures, all arrival orders, all shapes, heads {0,2046,2047,4095}", what="every packet is one well-formed temporal unit with the right pts/flags/type"),
-          Query(name="tu_K3", harness="C02/pkt.c", defines=["K=3"], unwind=14, funcs=F, timeout=1200,
-                bound="window of 3 pictures, all arrival orders, all shapes, heads {0,2046,2047,4095}", what="every packet is one well-formed temporal unit with the right pts/flags/type")]
-    if tier == "thorough":
-        qs.append(Query(name="tu_K4", harness="C02/pkt.c", defines=["K=4"], unwind=18, funcs=F, timeout=3600,
-                        bound="window of 4 pictures", what="every packet is one well-formed temporal unit"))
+    qs = []
+    plan = [(2, [0, 2047, 4095]), (3, [2046])] if tier != "thorough" else [(2, [0, 1, 2046, 2047, 4095]), (3, [0, 2045, 2046, 2047]), (4, [2045, 2046])]
+    for k, heads in plan:
+        for head in heads:
+            for perm in range(math.factorial(k)):
+                qs.append(Query(name="tu_K%d_head%d_perm%d" % (k, head, perm), harness="C02/pkt.c", defines=["K=%d" % k, "PERM=%d" % perm, "HEAD=%d" % head],
+                                unwind=4 * k + 6, funcs=F, timeout=900 if k < 4 else 3000,
+                                bound="window of %d pictures starting at decode order %d (queue depth 2048), arrival permutation #%d; symbolic: hidden/shown/show-existing shape, frame types, reference flags, frame sizes, stale queue contents, EOS" % (k, head, perm),
+                                what="every packet is one well-formed temporal unit with the right pts/flags/type"))
     return qs
